@@ -23,7 +23,7 @@ def K(harness, labels, **kw):
 PROPS = {
     "C10": {"level": "model_checking", "bounds_text": BT, "G": G(["schema"], "^Harness_Schema_", "^C10/"),
             "K": [K("^Harness_K4_", "^C10[+/]"), K("^Harness_K7_", "^C10/", strmax=4, splitmax=3), K("^Harness_K9_WithCall", "^C10/", strmax=4)], "O": "nested"},
-    "C16": {"level": "model_checking", "bounds_text": BT, "K": [K("^Harness_K8_(CLI|ReadConfig|FlagMapYAML)", "^C16/", strmax=4, splitmax=3)]},
+    "C16": {"level": "model_checking", "bounds_text": BT, "K": [K("^Harness_K8_(CLI|CLIFlags|ReadConfig|FlagMapYAML)", "^C16/", strmax=4, splitmax=3)]},
     "C14": {"level": "model_checking", "bounds_text": BT, "K": [K("^Harness_K8_ListOrder", "^C14/", strmax=3, splitmax=4), K("^Harness_K14_", "^C14/", strmax=3)], "O": "determinism"},
     "C02": {"level": "model_checking", "bounds_text": BT, "G": G(["schema", "rt", "from"], "^Harness_(Schema|RT|From)_", "^C02/"),
             "K": [K("^Harness_K1_", "^C02[+/]"), K("^Harness_K2_", "^C02/", strmax=4)]},
